@@ -1,6 +1,7 @@
 import Amgcl.Proofs.SchurExact
 import Amgcl.Proofs.Deflation
 import Mathlib.Algebra.Order.Field.Rat
+import Amgcl.Proofs.InverseMatrix
 /-!
 Concrete instances over `ℚ` used by the non-vacuity `example`s of `Properties/C18.lean`: a 2×2 saddle-point style
 system with interleaved mask `[u, p]`, its exact inner solvers, and a deflation set-up.
@@ -111,17 +112,26 @@ def std : Deflation.State ℚ := { A := Ad, Z := Zd, Einv := #[1/2] }
 theorem Ad_ok : Ad.WF ∧ Ad.nrows = 2 ∧ Ad.ncols = 2 := by decide
 theorem mkE_d : mkE Ad Zd = #[2] := by decide +kernel
 theorem init_d : Deflation.init Ad Zd = some std := by
-  have : denseInverse Zd.size (mkE Ad Zd) = some #[1/2] := by decide +kernel
+  have h1 : zeroPivot Zd.size (mkE Ad Zd) = false := by decide +kernel
+  have h2 : (inverse Zd.size (mkE Ad Zd) (Array.replicate (Zd.size * Zd.size) 0) (Array.replicate Zd.size 0)).1 = #[1/2] := by
+    decide +kernel
   unfold Deflation.init
-  rw [this]; rfl
-theorem hinv_d (k j : Nat) (hk : k < Zd.size) (hj : j < Zd.size) :
-    ∑ i ∈ range Zd.size, (mkE Ad Zd).getD (k * Zd.size + i) 0 * std.Einv.getD (i * Zd.size + j) 0
-      = if k = j then 1 else 0 := by
-  have hk0 : k = 0 := by have : Zd.size = 1 := rfl; omega
-  have hj0 : j = 0 := by have : Zd.size = 1 := rfl; omega
-  subst hk0 hj0
+  simp only [h1, h2]
+  rfl
+theorem det_d : (matOf Zd.size (mkE Ad Zd)).det ≠ 0 := by
   rw [mkE_d]
-  decide +kernel
+  have : matOf Zd.size (#[2] : Array ℚ) = Matrix.of (fun _ _ => (2 : ℚ)) := by
+    funext i j
+    have hi : i.val = 0 := by have := i.isLt; have : Zd.size = 1 := rfl; omega
+    have hj : j.val = 0 := by have := j.isLt; have : Zd.size = 1 := rfl; omega
+    simp [matOf, get2, hi, hj]
+  rw [this]
+  have h1 : ∀ (m : Nat), m = 1 → (Matrix.of (fun (_ _ : Fin m) => (2 : ℚ))).det ≠ 0 := by
+    intro m hm; subst hm; simp
+  exact h1 _ rfl
+/-- the exact preconditioner `A⁻¹ = [2 1; 1 2] / 3` -/
+def Pd (r : Vec ℚ) : Vec ℚ := #[(2 * r.getD 0 0 + r.getD 1 0) / 3, (r.getD 0 0 + 2 * r.getD 1 0) / 3]
+theorem Pd_ok : (Pd #[3, 0]).size = 2 ∧ spmv 1 Ad (Pd #[3, 0]) 0 (vclear 2) = #[3, 0] := by decide +kernel
 theorem Zd_ok (j : Nat) (hj : j < Zd.size) : (Zd.getD j #[]).size = 2 := by
   have hj0 : j = 0 := by have : Zd.size = 1 := rfl; omega
   subst hj0; rfl
